@@ -38,7 +38,7 @@ type params struct {
 
 func expected(method string, nonce int64) int64 {
 	switch method {
-	case "echo", "slow", "async", "peek":
+	case "echo", "slow", "async", "peek", "pasync":
 		return nonce*3 + 1
 	case "reenter":
 		return (nonce+500000)*3 + 1
@@ -172,7 +172,7 @@ func drawStrategy(plan *simrt.Source, ngo int) simrt.Strategy {
 	return st
 }
 
-var methods = []string{"echo", "echo", "peek", "slow", "async", "reenter", "fail", "nosuch"}
+var methods = []string{"echo", "echo", "peek", "slow", "async", "reenter", "fail", "nosuch", "pasync", "badparams"}
 
 func (c39) NewRun(plan *simrt.Source, job *harn.Job) harn.Run {
 	r := &c39run{extra: map[string]int{}}
@@ -245,7 +245,7 @@ func (c39) NewRun(plan *simrt.Source, job *harn.Job) harn.Run {
 				}
 				if o.Kind == "call" || o.Kind == "notify" {
 					o.Method = methods[plan.Draw(len(methods))]
-					if o.Kind == "notify" && (o.Method == "async" || o.Method == "peek" || o.Method == "reenter") {
+					if o.Kind == "notify" && (o.Method == "async" || o.Method == "peek" || o.Method == "reenter" || o.Method == "pasync") {
 						o.Method = "echo" // handlers must not answer notifications asynchronously / with results
 					}
 				}
@@ -550,6 +550,24 @@ func (ep *endpoint) preempt(ctx context.Context, req *jsonrpc2.Request) (interfa
 		ep.conn.Cancel(jsonrpc2.Int64ID(p.ID))
 		ep.r.sim.Probe("cancel-notification-handled")
 		return nil, nil
+	case "pasync": // answered asynchronously, but accepted by the Preempter on the read loop
+		if !req.IsCall() {
+			return nil, nil
+		}
+		id := req.ID
+		key := idStr(id)
+		ep.asyncOpen[key] = true
+		delay := int(p.Nonce % 5)
+		r := ep.r
+		simrt.Go(ep.name+".presponder", func() {
+			for i := 0; i < delay; i++ {
+				simrt.Yield("presponder")
+			}
+			delete(ep.asyncOpen, key)
+			ep.conn.Respond(id, expected("pasync", p.Nonce), nil)
+			r.sim.Probe("preempted-async-responded")
+		})
+		return nil, jsonrpc2.ErrAsyncResponse
 	case "peek":
 		if !req.IsCall() {
 			return nil, nil
@@ -720,6 +738,29 @@ func (r *c39run) doCall(ep *endpoint, task string, o opPlan) {
 	r.nonce++
 	cr := &callRec{ep: ep, method: o.Method, nonce: r.nonce}
 	r.calls = append(r.calls, cr)
+	if o.Method == "badparams" {
+		// parameters that cannot be marshalled: the call must fail at once, without touching the wire
+		wrote := len(ep.wrote)
+		cr.ac = ep.conn.Call(context.Background(), "echo", func() {})
+		cr.id = idStr(cr.ac.ID())
+		if !cr.ac.IsReady() {
+			r.fail("oracle:unmarshalable-call-pending", "a call whose parameters cannot be marshalled is not ready when Call returns", "unmarshalable call not retired")
+		}
+		for _, m := range ep.wrote[wrote:] { // (other tasks may have written meanwhile)
+			if !m.resp && m.id == cr.id {
+				r.fail("oracle:unmarshalable-call-written", "a call whose parameters cannot be marshalled reached the wire", "unmarshalable call written")
+			}
+		}
+		r.sim.Probe("unmarshalable-call")
+		aw := r.await(cr, context.Background(), 0, true)
+		if aw.err == nil {
+			r.fail("oracle:wrong-answer", "a call whose parameters cannot be marshalled succeeded", "unmarshalable call succeeded")
+		}
+		if err := ep.conn.Notify(context.Background(), "echo", func() {}); err == nil {
+			r.fail("oracle:unmarshalable-call-written", "a notification whose parameters cannot be marshalled reported success", "unmarshalable notification accepted")
+		}
+		return
+	}
 	cr.ac = ep.conn.Call(context.Background(), o.Method, params{Nonce: cr.nonce})
 	cr.id = idStr(cr.ac.ID())
 	if o.CancelMsg {
